@@ -7,7 +7,7 @@ import os, time, re, json, random, shutil, glob
 from .common import *
 
 IDENTS = ['a', 'b', 'x', 'foo', 'print', 'self', 'response', 'client', 'it', 'buf', 'if', 'else', 'return', 'for', 'in', 'let', 'fmt', 'os', 'Exit',
-          'camelCase', 'snake_case', 'r2', '_t']
+          'camelCase', 'snake_case', 'r2', '_t', 'r#type', '_', 'Self', 'crate']
 PUNCTS = list('+-*/=<>!&|:,.%^?@~')
 INT_LITS = ['0', '1', '42', '1_000', '0x1f', '3.14', '2u8']
 STR_LITS = ['"get"', '"a b"', '"{}"', '"a{b}c"', '"{{x}}"', '"semi;colon"', '"quote\\"d"', '"new\\nline"', '""', '"}{"', 'b"bytes"', "'c'", '"  padded  "',
